@@ -154,14 +154,18 @@ theorem regionsPart_lines_n (ds de ds' de' : List Char) (ρ : List Char → List
     · exact ih
 end
 
-/-- C18, listing, for a change of tag names: the two spellings of one document (grammar tags, no `unwrap-block`,
-    delimiters without line breaks) are listed with the same line ranges, item by item -/
-theorem list_lines_renamed (d0 : Char) (dr : List Char) (e0 : Char) (er : List Char)
+/-- C18, listing, for a change of tag names, in its general form (the tokens of either spelling are the normalised
+    pieces - the conclusion of C08) -/
+theorem list_lines_renamed_tn (d0 : Char) (dr : List Char) (e0 : Char) (er : List Char)
     (d0' : Char) (dr' : List Char) (e0' : Char) (er' : List Char)
     (ρ : List Char → List Char) (N : List Char → Prop) (hρ : RenOK ρ N)
     (hnl : ∀ c ∈ (d0 :: dr) ++ (e0 :: er), c ≠ '\n') (hnl' : ∀ c ∈ (d0' :: dr') ++ (e0' :: er'), c ≠ '\n')
     (ps ps' : List Piece) (hren : PiecesRen ρ N ps ps')
-    (hfree : ∀ p ∈ ps, p.fits d0 e0 (d0 :: dr) (e0 :: er)) (hfree' : ∀ p ∈ ps', p.fits d0' e0' (d0' :: dr') (e0' :: er'))
+    (hstrip : ∀ p ∈ ps, p.strip (d0 :: dr) (e0 :: er)) (hstrip' : ∀ p ∈ ps', p.strip (d0' :: dr') (e0' :: er'))
+    (htn : (tokenize (renderAll (d0 :: dr) (e0 :: er) ps) (d0 :: dr) (e0 :: er)).map (fun t => (t.kind, t.value))
+      = tnorm (d0 :: dr) (e0 :: er) [] ps [])
+    (htn' : (tokenize (renderAll (d0' :: dr') (e0' :: er') ps') (d0' :: dr') (e0' :: er')).map (fun t => (t.kind, t.value))
+      = tnorm (d0' :: dr') (e0' :: er') [] ps' [])
     (cfg : Cfg) (htl : N cfg.tlName) (hrm : N cfg.rmName)
     (hnu : NoUnwrapAttr (parseSource (renderAll (d0 :: dr) (e0 :: er) ps) (d0 :: dr) (e0 :: er))) :
     (listMarkers (renderAll (d0 :: dr) (e0 :: er) ps) (d0 :: dr) (e0 :: er) cfg).map
@@ -169,16 +173,11 @@ theorem list_lines_renamed (d0 : Char) (dr : List Char) (e0 : Char) (er : List C
     (listMarkers (renderAll (d0' :: dr') (e0' :: er') ps') (d0' :: dr') (e0' :: er')
         { cfg with tlName := ρ cfg.tlName, rmName := ρ cfg.rmName }).map
         (fun x => lineRangeOf (bytesOf (renderAll (d0' :: dr') (e0' :: er') ps')) (x.1.start, x.1.stop)) := by
-  have hok : ∀ p ∈ ps, p.ok d0 e0 := fun p hp => Piece.ok_of_fits _ _ _ _ p (hfree p hp)
-  have hok' : ∀ p ∈ ps', p.ok d0' e0' := fun p hp => Piece.ok_of_fits _ _ _ _ p (hfree' p hp)
-  generalize hsrc : renderAll (d0 :: dr) (e0 :: er) ps = src at hnu
-  generalize hsrc' : renderAll (d0' :: dr') (e0' :: er') ps' = src'
+  have hT := tokNs_of_tnorm (d0 :: dr) (e0 :: er) (d0' :: dr') (e0' :: er') ρ N ps ps' [] _ _ hren hstrip hstrip' htn htn'
+  generalize hsrc : renderAll (d0 :: dr) (e0 :: er) ps = src at hnu hT
+  generalize hsrc' : renderAll (d0' :: dr') (e0' :: er') ps' = src' at hT
   obtain ⟨tk, _⟩ := tokenize_ok src (d0 :: dr) (e0 :: er) (by simp)
   obtain ⟨tk', _⟩ := tokenize_ok src' (d0' :: dr') (e0' :: er') (by simp)
-  have hT := tokNs_of_tnorm (d0 :: dr) (e0 :: er) (d0' :: dr') (e0' :: er') ρ N ps ps' [] _ _ hren
-    (fun p hp => Piece.strip_of_fits _ _ _ _ p (hfree p hp)) (fun p hp => Piece.strip_of_fits _ _ _ _ p (hfree' p hp))
-    (tokens_tnorm d0 dr e0 er ps hok) (tokens_tnorm d0' dr' e0' er' ps' hok')
-  rw [hsrc, hsrc'] at hT
   have hpw := chain_sameLines_n (d0 :: dr) (e0 :: er) (d0' :: dr') (e0' :: er') ρ N hρ hnl hnl'
     (fun w c h => hnl c (by rw [h]; simp)) (fun w c h => hnl' c (by rw [h]; simp)) (by simp) (by simp)
     _ _ 0 0 0 0 [] [] [] [] tk.chain tk'.chain hT rfl rfl rfl
@@ -214,5 +213,27 @@ theorem list_lines_renamed (d0 : Char) (dr : List Char) (e0 : Char) (er : List C
   exact regions_lines_n _ _ _ _ ρ N _ _ (conditionHolds cfg) _ (fun el hn => cond_ren ρ N hρ cfg htl hrm el hn) _ _ hG
     (fun e he => ⟨hnu e he, elements_ordered _ 0 _ hspan e he⟩)
     (fun e he => ⟨hnu' e he, elements_ordered _ 0 _ hspan' e he⟩)
+
+
+/-- C18, listing, for a change of tag names: the two spellings of one document (grammar tags, no `unwrap-block`,
+    delimiters without line breaks) are listed with the same line ranges, item by item -/
+theorem list_lines_renamed (d0 : Char) (dr : List Char) (e0 : Char) (er : List Char)
+    (d0' : Char) (dr' : List Char) (e0' : Char) (er' : List Char)
+    (ρ : List Char → List Char) (N : List Char → Prop) (hρ : RenOK ρ N)
+    (hnl : ∀ c ∈ (d0 :: dr) ++ (e0 :: er), c ≠ '\n') (hnl' : ∀ c ∈ (d0' :: dr') ++ (e0' :: er'), c ≠ '\n')
+    (ps ps' : List Piece) (hren : PiecesRen ρ N ps ps')
+    (hfree : ∀ p ∈ ps, p.fits d0 e0 (d0 :: dr) (e0 :: er)) (hfree' : ∀ p ∈ ps', p.fits d0' e0' (d0' :: dr') (e0' :: er'))
+    (cfg : Cfg) (htl : N cfg.tlName) (hrm : N cfg.rmName)
+    (hnu : NoUnwrapAttr (parseSource (renderAll (d0 :: dr) (e0 :: er) ps) (d0 :: dr) (e0 :: er))) :
+    (listMarkers (renderAll (d0 :: dr) (e0 :: er) ps) (d0 :: dr) (e0 :: er) cfg).map
+        (fun x => lineRangeOf (bytesOf (renderAll (d0 :: dr) (e0 :: er) ps)) (x.1.start, x.1.stop)) =
+    (listMarkers (renderAll (d0' :: dr') (e0' :: er') ps') (d0' :: dr') (e0' :: er')
+        { cfg with tlName := ρ cfg.tlName, rmName := ρ cfg.rmName }).map
+        (fun x => lineRangeOf (bytesOf (renderAll (d0' :: dr') (e0' :: er') ps')) (x.1.start, x.1.stop)) :=
+  list_lines_renamed_tn d0 dr e0 er d0' dr' e0' er' ρ N hρ hnl hnl' ps ps' hren
+    (fun p hp => Piece.strip_of_fits _ _ _ _ p (hfree p hp)) (fun p hp => Piece.strip_of_fits _ _ _ _ p (hfree' p hp))
+    (tokens_tnorm d0 dr e0 er ps (fun p hp => Piece.ok_of_fits _ _ _ _ p (hfree p hp)))
+    (tokens_tnorm d0' dr' e0' er' ps' (fun p hp => Piece.ok_of_fits _ _ _ _ p (hfree' p hp)))
+    cfg htl hrm hnu
 
 end Chiritori.Props.C18
